@@ -44,6 +44,9 @@ type evCase struct {
 	baseDesc string
 	ev       gmsl.PDU
 	required []*world.Server
+	// reqOther: the servers required for another reason than being the
+	// sender's (event-ID server in versions 1-2, invited user's, authorising user's)
+	reqOther []*world.Server
 	plans    map[spec.ServerName][]sigPlan
 	ts       time.Time
 	ver      gmsl.RoomVersion
@@ -136,6 +139,15 @@ func bodyC06(r *sim.Run) {
 		}
 	}
 	useRing := t.Chance(650)
+	// the caller's directory may not know the sender (UserIDForSender returns
+	// nil, nil): the sender's server then cannot be named, every other
+	// required server still has to have signed. Judged for soundness only.
+	unknownSender := t.Chance(80)
+	if unknownSender {
+		useRing = false
+		r.Probe("sender_unknown_to_the_callers_directory")
+		r.Nontriv = true
+	}
 	var verifier gmsl.JSONVerifier
 	var shim *ringShim
 	if useRing {
@@ -151,6 +163,9 @@ func bodyC06(r *sim.Run) {
 		r.Probe("verifier_ledger")
 	}
 	uid := func(roomID spec.RoomID, sender spec.SenderID) (*spec.UserID, error) {
+		if unknownSender {
+			return nil, nil
+		}
 		return spec.NewUserID(string(sender), true)
 	}
 	s.Go("verifier", func() {
@@ -179,6 +194,15 @@ func bodyC06(r *sim.Run) {
 		}
 		for i, c := range cases {
 			r.Op()
+			if unknownSender {
+				rest := &evCase{required: c.reqOther, plans: c.plans, ts: c.ts, ver: c.ver}
+				want, why := w.expect(rest, t1, false)
+				r.Logf("t=%v verify #%d %s (sender unknown) -> %v (other required signers valid=%v: %s)", r.Now(), i, c.desc, errs[i], want, why)
+				if errs[i] == nil && !want {
+					r.Violate("C06", "soundness", "unknown_sender_"+whyTag(why), "event %s verified for a caller that cannot resolve the sender, although %s", c.desc, why)
+				}
+				continue
+			}
 			want, why := w.expect(c, t1, useRing)
 			if useRing && canAccept != nil {
 				got := errs[i] == nil
@@ -224,8 +248,10 @@ func (w *kworld) buildCase(impl gmsl.IRoomVersion, A, B, C, D, E *world.Server) 
 	p := world.Proto{RoomID: world.FakeRoomID(t, impl, A.Name), Sender: sender, Depth: int64(t.Range(1, 50)),
 		Prev: []string{world.FakeEventID(t, impl, A.Name)}, Auth: []string{world.FakeEventID(t, impl, A.Name)}}
 	req := map[spec.ServerName]*world.Server{A.Name: A}
+	other := map[spec.ServerName]*world.Server{}
 	if randomEventIDs[ver] {
 		req[origin.Name] = origin
+		other[origin.Name] = origin
 	}
 	kind := t.Weighted([]int{2, 1, 2, 3, 3, 1, 1, 1})
 	switch kind {
@@ -245,6 +271,7 @@ func (w *kworld) buildCase(impl gmsl.IRoomVersion, A, B, C, D, E *world.Server) 
 		}
 		p.Type, p.StateKey, p.Content = spec.MRoomMember, world.Str("@t:"+string(target.Name)), map[string]any{"membership": "invite"}
 		req[target.Name] = target
+		other[target.Name] = target
 		c.desc = "invite of @t:" + string(target.Name)
 	case 4: // join carrying join_authorised_via_users_server
 		auth := C
@@ -255,6 +282,7 @@ func (w *kworld) buildCase(impl gmsl.IRoomVersion, A, B, C, D, E *world.Server) 
 		p.Content = map[string]any{"membership": "join", "join_authorised_via_users_server": "@w:" + string(auth.Name)}
 		if restrictedJoins[ver] {
 			req[auth.Name] = auth
+			other[auth.Name] = auth
 		} else {
 			r.Probe("authorised_via_in_version_without_restricted_joins")
 		}
@@ -279,6 +307,9 @@ func (w *kworld) buildCase(impl gmsl.IRoomVersion, A, B, C, D, E *world.Server) 
 	sort.Strings(names)
 	for _, n := range names {
 		c.required = append(c.required, req[spec.ServerName(n)])
+		if o := other[spec.ServerName(n)]; o != nil {
+			c.reqOther = append(c.reqOther, o)
+		}
 	}
 	now := time.Now()
 	focus := sim.Pick(t, c.required)
@@ -328,7 +359,7 @@ func (w *kworld) buildCase(impl gmsl.IRoomVersion, A, B, C, D, E *world.Server) 
 // on its own signatures.
 func (w *kworld) cloneCase(impl gmsl.IRoomVersion, c0 *evCase) *evCase {
 	c := &evCase{ver: c0.ver, plans: map[spec.ServerName][]sigPlan{}, base: c0.base, unrel: c0.unrel, baseDesc: c0.baseDesc + " [same event, other signatures]",
-		required: c0.required, ts: c0.ts}
+		required: c0.required, reqOther: c0.reqOther, ts: c0.ts}
 	w.r.Probe("batch_with_two_pdus_sharing_an_event_id")
 	w.signCase(impl, c)
 	return c
